@@ -54,7 +54,11 @@ func Alphabet() []Sym {
 		{Name: "LogonGoodOtherCompIDs", LogonClass: LogonGood, Type: "A", Build: func(p *Peer, lim [2]int) []byte {
 			// a well-formed, acceptable Logon that names other parties and another interval
 			q := &Peer{Sender: "MALLORY", Target: "ELSEWHERE", Seq: p.Seq}
-			m := q.Logon(lim[0]+1, "0", fixref.F(TUser, "user"), fixref.F(TPass, "pw"))
+			hb := lim[0] + 1
+			if hb > lim[1] {
+				hb = lim[1]
+			}
+			m := q.Logon(hb, "0", fixref.F(TUser, "user"), fixref.F(TPass, "pw"))
 			p.Seq = q.Seq
 			return m
 		}},
